@@ -234,10 +234,10 @@ Proof.
     + eapply agree_on_ext; [exact SM | exact Ag].
     + apply (lits_sat_gext G G' _ _ th _ SM). exact C.
     + apply (lit_sat_gext G G' _ _ th _ SM). exact L.
-  - intros (A & B & C). split; [apply (choice_elems_ok_gext_1 G G'); assumption|].
-    split; [revert B | revert C]; apply agg_holds_ext; intro tv; split; apply choice_tuples_gext_1; assumption.
-  - intros (A & B & C). split; [apply (choice_elems_ok_gext_1 G G'); assumption|].
-    split; [revert B | revert C]; apply agg_holds_ext; intro tv; split; apply headagg_tuples_gext_1; assumption.
+  - intros (A & C). split; [apply (choice_elems_ok_gext_1 G G'); assumption|].
+    revert C; apply agg_holds_ext; intro tv; split; apply choice_tuples_gext_1; assumption.
+  - intros (A & C). split; [apply (choice_elems_ok_gext_1 G G'); assumption|].
+    revert C; apply agg_holds_ext; intro tv; split; apply headagg_tuples_gext_1; assumption.
   - tauto.
 Qed.
 Lemma head_sat_gext G G' H T s h : same_members G G' -> (head_sat G H T s h <-> head_sat G' H T s h).
